@@ -91,12 +91,17 @@ class Check:
         return True
 
     def build_lean(self):
-        targets = [self.cfg["module"], "pmhdriver"] + self.cfg.get("extra_targets", [])
+        targets = [self.cfg["module"]] + self.cfg.get("extra_targets", [])
         if self.tier == "thorough" and self.cfg.get("clean_on_thorough", True):
             # re-check from scratch everything this property's module depends on (own library only)
             shutil.rmtree(os.path.join(LEAN, ".lake", "build", "lib", "lean", "PMH"), ignore_errors=True)
-        rc, out, dt = lake(["build"] + targets)
-        self.cov["lake_build_s"] = round(dt, 1)
+        rc, out, dt = lake(["build", "pmhdriver"])
+        self.driver_ok = rc == 0
+        if rc != 0:
+            errs = [l for l in out.splitlines() if "error" in l][:12]
+            self.broken.append(("correspondence_broken", "lake build pmhdriver (executable model)", "\n".join(errs) or out[-2000:]))
+        rc, out, dt2 = lake(["build"] + targets)
+        self.cov["lake_build_s"] = round(dt + dt2, 1)
         if rc != 0:
             # which theorem failed? first "error:" lines
             errs = [l for l in out.splitlines() if "error" in l][:12]
@@ -306,7 +311,7 @@ def main():
     lean_ok = c.build_lean()
     if lean_ok:
         c.audit()
-    if ok and (lean_ok or os.path.exists(os.path.join(LEAN, ".lake", "build", "bin", "pmhdriver"))):
+    if ok and getattr(c, "driver_ok", False):
         c.correspondence()
     if ok:
         c.extra_steps()
